@@ -98,9 +98,10 @@ TYPES = {
     "str": ("str", ["'a'", "'1'"], ["1", "b'a'", "'a'", "1.0", "True"]),
     "Decimal": ("decimal.Decimal", ["decimal.Decimal('1.0')", "decimal.Decimal('1.00')"], ["'1.0'", "'1.00'", "1", "1.0"]),
     "datetime": ("datetime.datetime", ["datetime.datetime(2020, 1, 1, 5, 0, tzinfo=P5)", "datetime.datetime(2020, 1, 1, 0, 0, tzinfo=UTC)"],
-                 ["'2020-01-01T05:00:00+05:00'", "'2020-01-01T00:00:00+00:00'", "1577836800", "1577836800.0"]),
-    "time": ("datetime.time", ["datetime.time(5, 0, tzinfo=P5)", "datetime.time(0, 0, tzinfo=UTC)"], ["'05:00:00+05:00'", "'00:00:00+00:00'"]),
-    "timedelta": ("datetime.timedelta", ["datetime.timedelta(days=1)", "datetime.timedelta(hours=24)"], ["'P1D'", "'PT24H'", "86400", "86400.0"]),
+                 ["'2020-01-01T05:00:00+05:00'", "'2020-01-01T00:00:00+00:00'", "1577836800", "1577836800.0", "'PT1H'", "'P1D'", "'2031-05-06'"]),
+    "date": ("datetime.date", ["datetime.date(2031, 5, 6)"], ["'2031-05-06'", "'PT1H'", "'05:00:00+05:00'", "1577836800", "'2020-01-01T05:00:00+05:00'"]),
+    "time": ("datetime.time", ["datetime.time(5, 0, tzinfo=P5)", "datetime.time(0, 0, tzinfo=UTC)"], ["'05:00:00+05:00'", "'00:00:00+00:00'", "'PT1H'", "'2031-05-06'"]),
+    "timedelta": ("datetime.timedelta", ["datetime.timedelta(days=1)", "datetime.timedelta(hours=24)"], ["'P1D'", "'PT24H'", "86400", "86400.0", "'PT1H'", "'2031-05-06'", "'05:00:00+05:00'", "'2020-01-01T05:00:00+05:00'"]),
     "list[int]": ("list[int]", ["[1, 2]", "[True, 1.0]"], ["'[1, 2]'", "b'[1, 2]'", "[1, 2]", "['1', '2']", "(1, 2)"]),
     "AL": ("AL", ["[1, 2]"], ["'[1, 2]'", "[1, 2]"]),
     "dict[str, list[int]]": ("dict[str, list[int]]", ["{'a': [1]}"], ["'{\"a\": [1]}'", "{'a': [1]}", "{'a': ['1']}"]),
@@ -207,6 +208,10 @@ def _run(op, key, x):
                 r = tl.codec(T).encode(x)
             elif op == "decode":
                 r = tl.codec(T).decode(x)
+            elif op == "api-encode":
+                r = tl.typelib.encode(x, t=T)
+            elif op == "api-decode":
+                r = tl.typelib.decode(T, x)
             else:
                 raise AssertionError(op)
         return ("ok", snapshot(r), r)
@@ -347,7 +352,7 @@ def machine(col, seed, n_examples, steps):
                               bucket=f"{op}|{key}", size=len(self.hist))
             if snapshot(x) != before:
                 col.violation("input-not-mutated", case, f"{op}({key}, {src}) changed its input", bucket=f"{op}|{key}", size=len(self.hist))
-            if hot[0] == "ok" and op in ("marshal", "unmarshal", "decode"):
+            if hot[0] == "ok" and op in ("marshal", "unmarshal", "decode", "api-decode"):
                 r = hot[2]
                 ids = mutable_ids(r)
                 bare = key.endswith("(bare)")
@@ -399,13 +404,15 @@ def machine(col, seed, n_examples, steps):
                 b = cold_enc[1][1]
                 if isinstance(b, bytes):
                     self._call("decode", key, b, repr(b))
+                    self._call("api-encode", key, eval(src, pool()), src)  # noqa: S307
+                    self._call("api-decode", key, b, repr(b))
 
         @precondition(lambda self: bool(self.seen_calls))
         @rule(i=st.integers(0, 10 ** 6))
         def repeat_earlier_call(self, i):
             """re-issue an earlier (operation, type, input): histories that repeat are where caches and
             shared state show"""
-            calls = [h for h in self.hist if h[0] in ("marshal", "unmarshal") and h[2] is not None]
+            calls = [h for h in self.hist if h[0] in ("marshal", "unmarshal", "decode", "api-decode") and h[2] is not None]
             if not calls:
                 return
             op, key, src = calls[-1 - (i % min(len(calls), 6))]
